@@ -811,7 +811,7 @@ pub proof fn lemma_shrinks_trans(a: &Config, b: &Config, c: &Config)
             }
 //@after 0 `let (mut target,`
             let ghost refs = dependencies_from_input@;
-//@after 0 `target.extend_dependencies(&dependencies_from_input);`
+//@after 0 `target.extend_dependencies(`
             let ghost deps_all = target.meta().dependencies@;
             proof {
                 assert forall|i: int| 0 <= i < dependencies_from_input@.len() implies deps_all.contains(#[trigger] dependencies_from_input@[i]) by {
@@ -843,7 +843,7 @@ pub proof fn lemma_shrinks_trans(a: &Config, b: &Config, c: &Config)
                     assert(keys_of(&cfg_before) == keys);
                     assert forall|m2: Map<TargetId, Target>| #[trigger] extends(dt_before, m2) implies extends(dt0, m2) by { }
                 }
-//@after 0 `add_target(domain_targets, config, dependency_id, &targets_chain)?`
+//@after 0 `add_target(domain_targets,`
                 proof {
                     assert(cfg_shrinks(&c0, config)) by {
                         assert(cfg_shrinks(&cfg_before, config));
@@ -900,7 +900,7 @@ pub proof fn lemma_shrinks_trans(a: &Config, b: &Config, c: &Config)
                     reveal_with_fuel(inherited_files, 2);
                     reveal_with_fuel(inherited_cmds, 2);
                 }
-//@before 0 `domain_targets.insert(target_id.clone(), target);`
+//@before 0 `domain_targets.insert(`
             let ghost fin = dt1.insert(*target_id, target);
             proof {
                 // [C09.acyclic] this target is the last element of the chain its dependencies were resolved under
